@@ -374,12 +374,12 @@ func (r *router) addRealm(config *RealmConfig) (*realm, error) {
 	if err != nil {
 		return nil, err
 	}
-	realm, err := newRealm(
-		config,
-		broker,
-		newDealer(r.log, config.StrictURI, config.AllowDisclose, r.debug),
-		r.log, r.debug)
+	dealer := newDealer(r.log, config.StrictURI, config.AllowDisclose, r.debug)
+	realm, err := newRealm(config, broker, dealer, r.log, r.debug)
 	if err != nil {
+		// Do not leave the goroutines of the broker and dealer behind.
+		dealer.close()
+		broker.close()
 		return nil, err
 	}
 	r.realms[config.URI] = realm
